@@ -608,6 +608,9 @@ class CallMixin(ExprMixin):
                 if isinstance(ty.v, Ref) and not self.spec:
                     # a reference stored under a present key denotes an existing object
                     st.assume(z3.Implies(has, self.ref_valid(st, z3.Select(val, k.t))))
+                if (isinstance(ty.v, List) or ty.v == BYTES) and not self.spec:
+                    # a list stored under a present key has a non-negative length (as for subscripts)
+                    st.assume(z3.Implies(has, self.len_wf(T.list_len(V(ty.v, z3.Select(val, k.t))))))
                 some = T.coerce(V(ty.v, z3.Select(val, k.t)), oty)
                 r = V(oty, z3.If(has, some.t, dflt.t), lv=("item", lv, k) if lv else None)
                 return [(st, r)]
